@@ -91,7 +91,7 @@ func C10(r *core.Run) {
 	lifetimes := []int{600, 3600, 43200, 2592000}
 	nSeq := r.Pick(200, 10000)
 	nConc := r.Pick(30, 2000)
-	seqSteps, seqSpread := r.Pick(24, 30), r.Pick(13, 31)    // requests per history: quick 24-36, thorough 30-60
+	seqSteps, seqSpread := r.Pick(24, 30), r.Pick(13, 31)  // requests per history: quick 24-36, thorough 30-60
 	concSteps, concSpread := r.Pick(10, 20), r.Pick(9, 21) // requests per goroutine: quick 10-18, thorough 20-40
 	var seq, conc []c10Case
 	for i := 0; i < nSeq; i++ {
